@@ -45,6 +45,7 @@ type Engine struct {
 	typeIDs  map[string]int
 	strIDs   map[string]int
 	verbose  bool
+	aliases  map[string]map[string]string // package path -> import alias -> imported path
 }
 
 func fnKey(f *ssa.Function) string {
@@ -112,6 +113,19 @@ func loadEngine(repo, extDir, prelDir string) (*Engine, error) {
 	if len(errs) > 0 {
 		return nil, fmt.Errorf("repository does not type-check: %s", strings.Join(errs, "; "))
 	}
+	e.aliases = map[string]map[string]string{}
+	for _, p := range pkgs {
+		m := map[string]string{}
+		for _, f := range p.Syntax {
+			for _, im := range f.Imports {
+				path := strings.Trim(im.Path.Value, "\"")
+				if im.Name != nil && im.Name.Name != "_" && im.Name.Name != "." {
+					m[im.Name.Name] = path
+				}
+			}
+		}
+		e.aliases[p.PkgPath] = m
+	}
 	prog, spkgs := ssautil.AllPackages(pkgs, ssa.NaiveForm|ssa.InstantiateGenerics)
 	e.prog = prog
 	e.fset = prog.Fset
@@ -124,6 +138,12 @@ func loadEngine(repo, extDir, prelDir string) (*Engine, error) {
 		}
 		e.pkgs[p.Pkg.Path()] = p
 		e.tpkgs[p.Pkg.Path()] = p.Pkg
+	}
+	for _, p := range prog.AllPackages() {
+		if _, ok := e.pkgs[p.Pkg.Path()]; !ok {
+			e.pkgs[p.Pkg.Path()] = p
+			e.tpkgs[p.Pkg.Path()] = p.Pkg
+		}
 	}
 	for f := range ssautil.AllFunctions(prog) {
 		if f.Pkg == nil || !strings.HasPrefix(f.Pkg.Pkg.Path(), e.modPath) || f.Synthetic != "" {
@@ -159,6 +179,9 @@ func (e *Engine) loadPreludes(dir string) error {
 			t := strings.TrimSpace(ln)
 			if strings.HasPrefix(t, "; requires:") {
 				p.Requires = append(p.Requires, splitProps(strings.TrimPrefix(t, "; requires:"))...)
+			}
+			if i := strings.Index(t, ";"); i > 0 {
+				t = strings.TrimSpace(t[:i])
 			}
 			m := reDecl.FindStringSubmatch(t)
 			if m == nil {
